@@ -85,6 +85,26 @@ theorem init_TableGood {G : α → Prop} (m : Method) (data : Array α) (n : Nat
   · rw [init_DSymm m n data x y]
     exact key y x (by omega) hx'
 
+/-- **The closure hypothesis implies the run-dependent one** (`Spec.RunGood`, the hypothesis of the
+`_run` theorems): a set closed under the update that contains the inputs contains every table value
+of every greedy run. -/
+theorem runGood_of_updClosed {G : α → Prop} {m : Method} (hcl : UpdClosed G m)
+    {n : Nat} {data : Array α} (h0 : TableGood G (init m n data)) : RunGood G m n data := by
+  have key : ∀ (l : List (Step α)) (s : NState α) (i : Nat), StInv n i s → TableGood G s →
+      LiveSizePos s → GreedyFrom m s l → TableGood G (replay m s l) := by
+    intro l
+    induction l with
+    | nil => intro s i _ ht _ _; exact ht
+    | cons st r ih =>
+      intro s i hi ht hp hg
+      obtain ⟨ha, hr⟩ := hg
+      simp only [replay]
+      exact ih _ (i + 1) (merge_StInv hi ha)
+        (merge_TableGood hcl ha.1 ha.2.1 (by have := ha.2.2.1; omega) hi.lt ht hp)
+        (merge_LiveSizePos ha.1 hp) hr
+  intro l hg x hx y hy hxy
+  exact key l _ 0 (init_StInv m n data) h0 (by intro z _; simp [init]) hg x hx y hy hxy
+
 /-- **`NoNaNRun` from the value hypotheses of `generic_with`.** -/
 theorem noNaNRun_of_updClosed {G : α → Prop} (gs : GoodSet G) {m : Method} (hcl : UpdClosed G m)
     {n : Nat} {data : Array α} (h0 : TableGood G (init m n data)) : NoNaNRun m n data := by
